@@ -22,3 +22,6 @@ BOUNDED = [hub_bounded('C18-ranges-hub', ['ranges', 'forms'], ['html'])]
 
 FUNCTIONS = FUNCTIONS + ['soupsieve.css_match.CSSMatch.match_range', 'soupsieve.css_match._DocumentNav.get_attribute_by_name']
 SHARDS = {'match_range': 8, 'parse_value': 8, 'match_selectors': 16, 'match_nth': 4}
+
+from props._common import validate_single   # noqa: E402
+VALIDATION = (globals().get('VALIDATION') or []) + [validate_single]
